@@ -10,7 +10,7 @@ i=0
 while [ $i -lt $SLOTS ]; do
   (
     awk -v n=$SLOTS -v k=$i 'NR % n == k' /tmp/seeded.list | while read n; do
-      p=$(echo "$n" | cut -c1-3)
+      p=$(python3 -c "import json,sys;m=json.load(open(sys.argv[1]));print(m.get('check_property',sys.argv[2][:3]))" "seeded/$n/meta.json" "$n")
       out=$(tools/iso.sh try "s$i" "/verif/seeded/$n/patch.diff" "$p" quick 2>&1)
       rc=$(echo "$out" | sed -n 's/^rc=//p')
       sigs=$(echo "$out" | sed -n 's/^  signature: //p' | sort -u | head -4 | tr '\n' ';')
